@@ -187,8 +187,11 @@ PROPS = {
                 "on ReadStructuredMetrics of the output. Distinct = distinct case line.",
         "level_text": "Theorems (Props/C20.lean) for every actor list, span and chunking: exactly one output sample per second of the span (one_sample_per_second), start stamps "
                       "one second apart from the workload start, one sub-document per actor in input order in every sample, and whatever translateAtNextWindow returns is the "
-                      "value vector of one of that actor's own remaining samples (nextWindow_own). The model is compared with TranslateGenny/GetGennyTime on every case.",
-        "level_note": "Partial: 'first sample of a new second' and 'positions never move backwards' are checked by the oracle on every case (the model records the picks); the 300 "
+                      "value vector of one of that actor's own remaining samples (nextWindow_own); the selected sample is the first one at or after the cursor whose wall-clock "
+                      "second differs from the previous one - every skipped sample lies in the previous second (findWindow_first); after any number of seconds the positions "
+                      "(chunk number, index) each actor has selected are non-decreasing (picks_never_move_backwards, with loopSeconds_states tying the states to the output). The "
+                      "model is compared with TranslateGenny/GetGennyTime on every case.",
+        "level_note": "The 300 "
                       "bound is the streaming collector's capacity (C07) with the extracted constant. math.Ceil(float64(ts)/1000) is the integer ceiling for |ts| < 2^53. An actor "
                       "without any chunk would dereference nil in Go; the property quantifies over actors built from event streams.",
         "assumptions": ["|ts| < 2^53", "decoding of the actor streams is C01"],
